@@ -293,6 +293,7 @@ class World:
         self.node_sessions = {}       # server -> client (presence owner)
         self.untold_servers = set()   # see op_bucket_create
         self.told_buckets = set()     # bucket definitions the master has read
+        self.held_servers = set()     # servers the master could load
         self.master = None
         self.master_client = None
         self.master_gen = 0
@@ -372,6 +373,8 @@ class World:
         self.master_gen += 1
         self.untold_servers.clear()
         self.told_buckets = set(self.zk.children(z.BUCKETS) or [])
+        self.held_servers = {name for name in self.zk.children(z.SERVERS)
+                             or [] if self._master_can_load(name)}
         if self.master_client is not None:
             self.zk.expire(self.master_client.client_id[0])
         client = self.zk.connect('master%d' % self.master_gen)
@@ -419,6 +422,13 @@ class World:
             return json.loads(node.data.decode())
         except ValueError:
             return None
+
+    def _master_can_load(self, sname):
+        """Defined, with data, under a bucket whose definition the master
+        has read."""
+        data = self._zk_obj(z.path.server(sname)) or {}
+        return bool(data.get('parent')) and \
+            data['parent'] in self.told_buckets
 
     def server_loadable(self, sname):
         """Is the server a server of the cell by the records: defined, with a
@@ -568,11 +578,17 @@ class World:
                     truth.blacklist = list(
                         self._zk_obj(z.BLACKEDOUT_APPS) or [])
                 elif resource == 'servers':
+                    # without a list the master reloads the difference
+                    # between the servers IT HOLDS and the ones defined
                     names = payload or sorted(
-                        set(truth.srv) ^ set(self.zk.children(z.SERVERS)
-                                             or []))
+                        self.held_servers ^ set(self.zk.children(z.SERVERS)
+                                                or []))
                     for name in names:
                         self._truth_server(name)
+                        if self._master_can_load(name):
+                            self.held_servers.add(name)
+                        else:
+                            self.held_servers.discard(name)
                         truth.absent.pop(name, None)
                         parent = (self._zk_obj(z.path.server(name)) or
                                   {}).get('parent')
